@@ -223,9 +223,9 @@ def valHandlers : List (String × (ValCtx → Verdict → Verdict)) :=
 def sliceText (text : String) (a b : Nat) : String :=
   String.ofList ((Javadoc.sliceBytes text.toList a b).getD [])
 
-/-- see `ValCtx.readOk` -/
-def readAsWritten (j : Json) (stage1 : List FileResult) : Bool :=
-  let sxOk := match (j.getObjVal? "expect_sx").toOption with
+/-- the syntax-stage trees are the position-erased trees the generator expects (field `key` of the case) -/
+def sxAsExpected (j : Json) (key : String) (stage1 : List FileResult) : Bool :=
+  match (j.getObjVal? key).toOption with
     | none => true
     | some e => match (list (fun x => do pure ((← str (← fld x "id")), (← str (← fld x "sx")))) e) with
       | .error _ => false
@@ -233,6 +233,30 @@ def readAsWritten (j : Json) (stage1 : List FileResult) : Bool :=
           match stage1.find? (fun fr => fr.id == id) with
           | some fr => (fr.ast.map Spec.PL.sxAidl) == some sx
           | none => false
+
+/-- every position of these results is TRUE: its offset is a character boundary of the file and its line and column
+    are what the line / column table of the case (field `lc`, the `line-col` crate's answer) says for that offset —
+    a diagnostic "on the direction keyword" with the right offsets and a wrong column is not on the keyword -/
+def positionsTrue (j : Json) (results : List FileResult) : Bool :=
+  match (j.getObjVal? "lc").toOption with
+  | none => true
+  | some lj =>
+    match list (fun e => do
+        let a ← arr e
+        pure ((← str a[0]!), (← Parse.lcTable a[1]!))) lj with
+    | .error _ => false
+    | .ok lcs => results.all fun fr =>
+        match lcs.lookup fr.id with
+        | none => true
+        | some lc =>
+          (Spec.PL.diagRanges fr.diags).all (Spec.PL.rangeOk lc)
+          && (match fr.ast with
+              | some a => (Spec.PL.allRanges a).all (Spec.PL.rangeOk lc)
+              | none => true)
+
+/-- see `ValCtx.readOk` -/
+def readAsWritten (j : Json) (stage1 : List FileResult) : Bool :=
+  let sxOk := sxAsExpected j "expect_sx" stage1
   let codesOk := match (j.getObjVal? "expect_codes").toOption with
     | none => true
     | some e => match (list (fun x => do
@@ -251,7 +275,7 @@ def readAsWritten (j : Json) (stage1 : List FileResult) : Bool :=
         let w := sliceText text m.onewayRange.start.off m.onewayRange.stop.off
         !m.oneway || w == "oneway"
     | _, _ => true
-  sxOk && codesOk && onewayOk
+  sxOk && codesOk && onewayOk && positionsTrue j stage1
 
 def opValidate (prop : String) (j : Json) : R Verdict := do
   let impl ← fld j "impl"
@@ -281,7 +305,8 @@ def opValidate (prop : String) (j : Json) : R Verdict := do
   match model with
   | none => pure ()
   | some m =>
-    let ctx : ValCtx := { stage1, out, model := m, defined := collectItemKeys stage1, readOk := readAsWritten j stage1 }
+    let ctx : ValCtx := { stage1, out, model := m, defined := collectItemKeys stage1,
+                          readOk := readAsWritten j stage1 && positionsTrue j out }
     for (p, h) in valHandlers do
       if prop == p || prop == "all" then v := h ctx v
   return v
@@ -469,7 +494,10 @@ def opPerturb (j : Json) : R Verdict := do
       | some sj => match list fileResult sj with
         | .ok [fr] => fr == t1
         | _ => false
-    v := v.addSpec "C13" (Spec.C13.holdsPair d1 d2 t1 t2 r1 r2 && (!textSame || t1 == t2) && soloOk)
+    -- both projects were read as written: the facts about the OTHER files (`d1`, `d2`) are not taken from whatever the
+    -- implementation made of them — a re-layout of an imported file must leave what it defines alone
+    let readOk := sxAsExpected j "expect_sx" s1 && sxAsExpected j "expect_sx_b" s2
+    v := v.addSpec "C13" (Spec.C13.holdsPair d1 d2 t1 t2 r1 r2 && (!textSame || t1 == t2) && soloOk && readOk)
     let same := t1 == t2 && Spec.C13.facts d1 t1 == Spec.C13.facts d2 t2
     v := { v with nontrivial := !(Spec.C13.importKeys t1).isEmpty,
                   dist := bump (bump v.dist how) (if same then "facts unchanged" else "facts changed (control)") }
